@@ -296,6 +296,9 @@ benign("c02-rename-states", "C02", COMP, "ml_state", "match_state", count=5)
 # ---- C16 -------------------------------------------------------------------------------
 FSEE = "ruzstd/src/fse/fse_encoder.rs"
 mutant("c16-f4-revert", "C16", "C16.dom.single-symbol", FSEE, "    let max_symbol = max_symbol.max(1);\n", "")
+mutant("c16-f11-revert", "C16", "C16.dom.huffman-two-symbols", COMP, "    if literals_vec.len() > 1024 && literals_vec.iter().any(|x| *x != literals_vec[0]) {", "    if literals_vec.len() > 1024 {")
+mutant("c16-f11-weakened-to-or", "C16", "C16.dom.huffman-two-symbols", COMP, "    if literals_vec.len() > 1024 && literals_vec.iter().any(|x| *x != literals_vec[0]) {", "    if literals_vec.len() > 1024 || literals_vec.iter().any(|x| *x != literals_vec[0]) {")
+benign("c16-f11-all-equal-negated", "C16", COMP, "    if literals_vec.len() > 1024 && literals_vec.iter().any(|x| *x != literals_vec[0]) {", "    if literals_vec.len() > 1024 && !literals_vec.iter().all(|x| *x == literals_vec[0]) {")
 mutant("c16-f5-revert", "C16", "C16.pair.huffman-commit", FAST, "            state.last_huff_table = None;\n", "")
 mutant("c16-f3-revert", "C16", "C16.table.seq-count", COMP, "128..=0x7EFF => {", "128..=0x7FFF => {", more=[{"file": COMP, "find": "0x7F00..=UPPER_LIMIT => {", "replace": "0x8000..=UPPER_LIMIT => {", "count": 1}])
 mutant("c16-new-panic-on-matcher-path", "C16", "C16.inventory.panics", COMP, "                literals_vec.extend_from_slice(literals);\n                sequences.push(", "                literals_vec.extend_from_slice(literals);\n                assert!(match_len >= 5);\n                sequences.push(")
@@ -312,6 +315,12 @@ mutant("c19-create-before-table", "C19", "C19.dom.refuse-first", CLIM,
        "    info!(\"compressing {input:?} to {output:?}\");\n    let compression_level", "    info!(\"compressing {input:?} to {output:?}\");\n    let _early = File::create(&output).wrap_err(\"failed to open output file for writing\")?;\n    let compression_level")
 mutant("c19-progress-short-buffer", "C19", "C19.prov.progress", CLIP, "        let out = self.reader.read(buf)?;", "        let n = buf.len().min(4096);\n        let out = self.reader.read(&mut buf[..n / 2 * 2])?;")
 mutant("c19-progress-count-changed", "C19", "C19.prov.progress", CLIP, "        self.update(out as u64);\n        Ok(out)", "        self.update(out as u64);\n        Ok(out.min(self.total))")
+mutant("c19-panic-after-create", "C19", "C19.inventory.panics", CLIM, "    let compressed_size = output.metadata()?.len();", "    let compressed_size = output.metadata().expect(\"output metadata\").len();")
+mutant("c19-ratio-by-integer-division", "C19", "C19.inventory.panics", CLIM, "    let compression_ratio = compressed_size as f64 / source_size as f64 * 100.0;", "    let compression_ratio = (compressed_size * 100 / source_size as u64) as f64;")
+mutant("c19-unit-index-unclamped", "C19", "C19.dom.index-bounded", CLIP, "    let unit_index = (order_of_magnitude / upper_bound).clamp(0, units.len() - 1);", "    let unit_index = order_of_magnitude / upper_bound;")
+mutant("c19-unit-index-clamped-to-len", "C19", "C19.dom.index-bounded", CLIP, "    let unit_index = (order_of_magnitude / upper_bound).clamp(0, units.len() - 1);", "    let unit_index = (order_of_magnitude / upper_bound).clamp(0, units.len());")
+benign("c19-unit-index-min", "C19", CLIP, "    let unit_index = (order_of_magnitude / upper_bound).clamp(0, units.len() - 1);", "    let unit_index = (order_of_magnitude / upper_bound).min(units.len() - 1);")
+benign("c19-size-doc-comment", "C19", CLIP, "    let upper_bound = 3;", "    // three figures before the decimal point at most\n    let upper_bound = 3;")
 mutant("c19-library-loses-fastest", "C19", "C19.exh.levels", FCOMP, "                CompressionLevel::Fastest => {\n                    compress_fastest(&mut self.state, last_block, uncompressed_data, output)\n                }", "                CompressionLevel::Fastest if read_bytes > 0 => {\n                    compress_fastest(&mut self.state, last_block, uncompressed_data, output)\n                }")
 
 # ---- C20 -------------------------------------------------------------------------------
